@@ -256,6 +256,26 @@ def rule_executemany_client_side(ctx):
     ctx.floor("C08.e2 paths", n, 1)
 
 
+def rule_placeholder_order(ctx):
+    """C08.h: server-side placeholders are bound by position in the *generated* statement, so a rewrite must keep the operands
+    that can hold a `?` in the order they were written. Decided for the rewrites that rebuild an operand list:
+    OBJECT_CONSTRUCT('b', ?, 'a', ?) keeps its pairs in written order."""
+    from ..execmodel import lit, node
+    from .wiring import IS, LIST, P, run_cases
+
+    def make():
+        ops = {}
+        ops["kv1"] = node("PropertyEQ", this=lit("b", True), expression=node("Placeholder", "ph1"))
+        ops["kv2"] = node("PropertyEQ", this=lit("a", True), expression=node("Placeholder", "ph2"))
+        return node("Struct", "stmt", expressions=Lst([ops["kv1"], ops["kv2"]])), ops
+
+    cases = [("OBJECT_CONSTRUCT('b', ?, 'a', ?) keeps the pairs (and their placeholders) in written order", "object_construct", make,
+              lambda o, i: P("Anonymous", this="TO_JSON", expressions=LIST(P("Struct", expressions=LIST(IS(o["kv1"]), IS(o["kv2"]))))),
+              "qmark / numeric parameters are bound to the n-th placeholder of the generated SQL: reordering the pairs binds the values to the wrong keys")]
+    n = run_cases(ctx, "C08.h", cases)
+    ctx.floor("C08.h cases", n, 1)
+
+
 def rule_reembedded_text(ctx):
     """C08.f = C09.e: a value that fakesnow itself re-embeds into a statement of its own (the table comment — which may have
     been a bound parameter) sits in a single-quoted literal with its quotes doubled, the one embedding that is safe for every
@@ -304,4 +324,5 @@ RULES = [
     ("C08.d", rule_server_side, ("quick", "thorough")),
     ("C08.e", rule_executemany, ("quick", "thorough")),
     ("C08.e2", rule_executemany_client_side, ("quick", "thorough")),
+    ("C08.h", rule_placeholder_order, ("quick", "thorough")),
 ]
